@@ -43,7 +43,7 @@ def obligations(tier):
         CH("flag_iff_strict_reparse_refuses", H, "flag_iff_strict_refuses", t * 2, mode="E1s", functions=F,
            bounds="none, each single and each ordered pair (same base object) of 45 injection sites on 10 base objects (2.0 objects and embedded types with an extensions member, custom content inside marking definitions)"),
         CH("reserved_member_names_switch_nothing", H, "reserved_names", t, mode="E1s", functions=F[:1] + F[2:4],
-           bounds="members named allow_custom / interoperability / custom_properties at 14 sites (top level, embedded objects, extensions, marking definitions, bundle and observed-data members), alone or next to a custom property: strict parse refuses"),
+           bounds="members named allow_custom / interoperability / custom_properties / _valid_refs at 16 sites (top level, embedded objects, extensions, marking definitions, bundle and observed-data members), alone or next to a custom property: strict parse refuses"),
         CH("dropped_custom_values_do_not_flag", H, "dropped_custom_values", t, mode="E1s", functions=F[:1],
            bounds="custom property given as null / [] at 9 sites (top level, embedded, extension, bundle and observed-data members), alone or next to each injection"),
         CH("registered_toplevel_extensions_not_custom", H, "toplevel_extension_routes", t, mode="E1s", functions=F[:1] + ["stix2.versioning.new_version", "stix2.base._STIXBase.__deepcopy__"],
